@@ -87,7 +87,8 @@ def symbol_check(rep, b):
     """exported symbols (nm) == prototypes declared in the generated C headers"""
     p = subprocess.run(["nm", "-g", "--defined-only", b["lib"]], stdout=subprocess.PIPE, stderr=subprocess.DEVNULL, text=True)
     syms = {l.split()[-1] for l in p.stdout.splitlines() if " T " in l}
-    mine = {s for s in syms if re.match(r"^(T\d+|Op|L\d+|St|Nest\w*|W\w+|OutSt|En\w*)_", s)}
+    names = ["Op"] + list(b["types"]["owners"]) + [t.name for t in b["types"]["structs"]] + [t.name for t in b["types"]["enums"]]
+    mine = {s for s in syms if any(s.startswith(n + "_") for n in names)}
     protos = set()
     for f in os.listdir(b["hdr"]):
         if f.endswith(".h") and f != "diplomat_runtime.h":
